@@ -20,6 +20,9 @@ use crate::util::{
     compress_async, decompress_async, read_directories_async, write_directories_async,
 };
 
+/// The largest zoom level whose tile ids fit into 64 bits.
+const MAX_ZOOM: u8 = 31;
+
 #[derive(Debug)]
 /// A structure representing a `PMTiles` archive.
 pub struct PMTiles<R> {
@@ -179,6 +182,11 @@ impl<R: Read + Seek> PMTiles<R> {
     /// # Errors
     /// See [`get_tile_by_id`](Self::get_tile_by_id) for details on possible errors.
     pub fn get_tile(&mut self, x: u64, y: u64, z: u8) -> Result<Option<Vec<u8>>> {
+        // coordinates that do not denote a tile can not be converted to a tile id
+        if z > MAX_ZOOM || x >= (1u64 << z) || y >= (1u64 << z) {
+            return Ok(None);
+        }
+
         self.get_tile_by_id(tile_id(z, x, y))
     }
 }
@@ -212,6 +220,11 @@ impl<R: AsyncRead + AsyncReadExt + Send + Unpin + AsyncSeekExt> PMTiles<R> {
     /// # Errors
     /// See [`get_tile_by_id_async`](Self::get_tile_by_id_async) for details on possible errors.
     pub async fn get_tile_async(&mut self, x: u64, y: u64, z: u8) -> Result<Option<Vec<u8>>> {
+        // coordinates that do not denote a tile can not be converted to a tile id
+        if z > MAX_ZOOM || x >= (1u64 << z) || y >= (1u64 << z) {
+            return Ok(None);
+        }
+
         self.get_tile_by_id_async(tile_id(z, x, y)).await
     }
 }
